@@ -70,7 +70,7 @@ func (f *Func) Init(raw string) error {
 	}
 	// Only the path part is escaped.
 	var err error
-	if f.Complete, err = url.QueryUnescape(raw); err != nil {
+	if f.Complete, err = url.PathUnescape(raw); err != nil {
 		return fmt.Errorf("bad function reference: %w", err)
 	}
 	// Update the index in the unescaped string.
